@@ -348,11 +348,11 @@ func actParseManifest(m string) []objRes {
 	return out
 }
 
-// actSelector: the pod selector a manifest entry itself declares (Deployment: spec.selector.matchLabels,
-// Service: spec.selector), nil when it declares none.
-func actSelector(r objRes) map[string]string {
-	_, kind := nsim.SplitKind(r.Kind)
-	spec, _ := r.Body["spec"].(map[string]interface{})
+// actSelector: the pod selector an object declares (Deployment: spec.selector.matchLabels, Service: spec.selector),
+// nil when it declares none.
+func actSelector(nskind string, obj map[string]interface{}) map[string]string {
+	_, kind := nsim.SplitKind(nskind)
+	spec, _ := obj["spec"].(map[string]interface{})
 	var raw map[string]interface{}
 	switch kind {
 	case "Deployment":
@@ -371,15 +371,24 @@ func actSelector(r objRes) map[string]string {
 	return out
 }
 
-// actPodOfRelease: the pod (a stored object) carries every label some manifest entry of its namespace selects by.
-func actPodOfRelease(key string, pod map[string]interface{}, manifest []objRes) bool {
+// actPodOfRelease: some resource of the new revision's manifest, AS IT IS IN THE CLUSTER after the operation, selects
+// the pod (same namespace, the pod carries every label of the object's selector).  The object in the cluster, not
+// the manifest text: a selector entry somebody added to the release's Service out of band survives the three-way
+// merge (foreign fields are kept), the Service then does route to the pod, and the pod is one of "the pods of the
+// release's Service" that --recreate-pods is there to restart.  (First version: the manifest's own text; that
+// flagged exactly this case on the unchanged tree - a false alarm of the oracle, see notes.)
+func actPodOfRelease(key string, pod map[string]interface{}, manifest []objRes, cluster map[string]map[string]interface{}) bool {
 	ns, _ := nsim.SplitKind(kindOfKey(key))
 	md, _ := pod["metadata"].(map[string]interface{})
 	lbl, _ := md["labels"].(map[string]interface{})
 	for _, r := range manifest {
 		rns, _ := nsim.SplitKind(r.Kind)
-		sel := actSelector(r)
-		if sel == nil || rns != ns {
+		live := cluster[r.Key()]
+		if live == nil || rns != ns {
+			continue
+		}
+		sel := actSelector(r.Kind, live)
+		if sel == nil {
 			continue
 		}
 		ok := true
@@ -710,8 +719,8 @@ func actOracle(c *actCase, o *actObs) []hx.Violation {
 				}
 			}
 			for _, k := range allKeys2(before, after) {
-				// --recreate-pods: the pods a manifest object of the NEW revision selects by its own selector belong to
-				// the release's workload and may be deleted; every other pod is a bystander
+				// --recreate-pods: the pods a resource of the NEW revision, as the cluster holds it, selects belong to the
+				// release's workload and may be deleted; every other pod is a bystander
 				if _, kind := nsim.SplitKind(kindOfKey(k)); kind == "Pod" && s.Recreate && !mine[k] {
 					if _, gone := after[k]; !gone {
 						var prevObjs map[string]map[string]interface{}
@@ -720,7 +729,7 @@ func actOracle(c *actCase, o *actObs) []hx.Violation {
 						} else {
 							prevObjs = o.Steps[i-1].Objs
 						}
-						if nr := actLast(so.Ledger); nr != nil && prevObjs[k] != nil && actPodOfRelease(k, prevObjs[k], nr.Manifest) {
+						if nr := actLast(so.Ledger); nr != nil && prevObjs[k] != nil && actPodOfRelease(k, prevObjs[k], nr.Manifest, so.Objs) {
 							continue
 						}
 					}
@@ -1014,5 +1023,15 @@ func actCorpus() []any {
 		actStep{Op: "install", Manifest: []objRes{dep("", "nginx:1.25"), svcNoSel("a.example.com")}},
 		actStep{Op: "upgrade", Manifest: []objRes{dep("", "nginx:1.26"), svcNoSel("b.example.com")}},
 		actStep{Op: "rollback", Recreate: true}))
+	// false alarm of the first round-5 oracle, kept as a witness: the release's Service declares no selector, somebody
+	// adds one to the live Service out of band, the upgrade keeps it (foreign field) and --recreate-pods restarts the pod
+	// that Service now routes to; the stranger stays
+	svcEdited := objRes{Kind: "Service", Name: "ext", Body: jm{"metadata": jm{"labels": jm{"app.kubernetes.io/managed-by": "Helm"},
+		"annotations": jm{"meta.helm.sh/release-name": actRel, "meta.helm.sh/release-namespace": "default"}},
+		"spec": jm{"type": "ExternalName", "externalName": "a.example.com", "selector": jm{"app": "web"}}}}
+	out = append(out, one([]objRes{pod("Pod", "web-1", jm{"app": "web"}), pod("Pod", "stranger", jm{"app": "other"})},
+		actStep{Op: "install", Manifest: []objRes{svcNoSel("a.example.com"), cfg}},
+		actStep{Op: "edit", Set: &svcEdited},
+		actStep{Op: "upgrade", Recreate: true, Manifest: []objRes{svcNoSel("b.example.com"), cfg}}))
 	return out
 }
